@@ -20,6 +20,8 @@ theorem inv_step (s : State) (l : Label) (h : Inv s) : Inv (step true s l).1 := 
   obtain ⟨h1, h2, h3, h4, h5, h6⟩ := h
   cases l with
   | tick d => exact ⟨h1, h2, h3, h4, h5, h6⟩
+  | sub k => exact ⟨h1, h2, h3, h4, h5, h6⟩
+  | unsub k => exact ⟨h1, h2, h3, h4, h5, h6⟩
   | bump p =>
     refine ⟨?_, ?_, h3, h4, ?_, h6⟩
     · intro n hn k; have := h1 n hn k; simp [step]; split <;> omega
